@@ -62,6 +62,8 @@ CheckLine(i) ==
                  \cup (IF cs0.d <= 0 \/ cs0.desired + cs0.d > cs0.max THEN {"rejected"} ELSE {})
                  \cup (IF cs0.fleet /\ line.ret = "nil" THEN {"fleet-success"} ELSE {})
                  \cup (IF cs0.fleet /\ cs0.never THEN {"fleet-never-ready"} ELSE {})
+                 \cup (IF cs0.fleet /\ cs0.never /\ "readyK" \in DOMAIN line.case /\ line.case.readyK > 0
+                          /\ \E j \in 1..Len(line.calls) : line.calls[j].op = "status" THEN {"fleet-partially-ready-at-deadline"} ELSE {})
                  \cup (IF cs0.fleet /\ line.case.failAttach > 0 /\ \E j \in 1..Len(obs) : obs[j].op = "attach" /\ ~obs[j].ok THEN {"fleet-attach-failed"} ELSE {})
                  \cup (IF \E j \in 1..Len(obs) : obs[j].op = "terminate_instances" /\ ~obs[j].ok THEN {"fleet-terminate-failed"} ELSE {})
                  \cup (IF Len(SelectSeq(obs, LAMBDA x : x.op = "terminate_instances")) > 1 THEN {"fleet-terminate-several-batches"} ELSE {})
